@@ -2,7 +2,7 @@ INIT GenInit
 NEXT GenNext
 CONSTANT Frames = {0, 1, 512}
 CONSTANT Times = {0, 1, 2, 3, 4}
-CONSTANT LenOf <- L4555
+CONSTANT LenOf <- L4454
 CONSTANT TicksPerMs = 1
 CONSTANT FullRx = FALSE
 CONSTANT Receivers = {0, 1}
